@@ -265,8 +265,8 @@ Print Assumptions C02_source_first_id.
 
 Theorem C02_source_statement_order :
   gen_register_order = [RHard; RByType; RAll] /\ gen_deregister_order = [RHard; RByType; RAll] /\
-  gen_remove_suppresses_keyerror = true.
-Proof. exact (conj eq_refl (conj eq_refl eq_refl)). Qed.
+  gen_remove_suppresses_keyerror = true /\ gen_registry_skeleton_ok = true.
+Proof. exact (conj eq_refl (conj eq_refl (conj eq_refl eq_refl))). Qed.
 Print Assumptions C02_source_statement_order.
 
 (* ---------- non-vacuity: a history with two models, three classes, create_agents with a per-agent list,
